@@ -177,6 +177,24 @@ ChangeFull(u) ==
           /\ hist' = Append(hist, [k |-> "full", u |-> u, t |-> nd, exp |-> nd])
     /\ UNCHANGED <<open, first>>
 
+\* a didChange that carries a full-text replacement followed by a range change against the new text
+ChangeFullRangeP(u, cs0, i, j, cs) ==
+    /\ MaxBatch >= 2 /\ More /\ open[u]
+    /\ i <= j
+    /\ LET d0  == Mk(cs0, fresh)
+           t   == Mk(cs, fresh + Len(cs0))
+           chg == <<RangeChg(d0, i, j, t)>>
+           nd  == Splice(d0, i, j, t)
+       IN /\ i \in ValidCuts(d0) /\ j \in ValidCuts(d0)
+          /\ doc' = [doc EXCEPT ![u] = nd]
+          /\ fresh' = fresh + Len(cs0) + Len(cs)
+          /\ hist' = Append(hist, [k |-> "mixed", u |-> u, t |-> d0, chg |-> chg, exp |-> nd, alt |-> Alts(d0, chg)])
+    /\ UNCHANGED <<open, first>>
+
+ChangeFullRange(u) ==
+    \E cs0 \in SeqsUpTo(Classes, MaxDoc) : \E i \in 0..Len(cs0) : \E j \in 0..Len(cs0) : \E cs \in SeqsUpTo(Classes, 1) :
+        ChangeFullRangeP(u, cs0, i, j, cs)
+
 \* didSave with includeText: the client sends the text it holds
 Save(u) ==
     /\ More /\ open[u]
@@ -199,7 +217,7 @@ Open(u) ==
           /\ hist' = Append(hist, [k |-> "open", u |-> u, t |-> nd, exp |-> nd])
           /\ UNCHANGED first
 
-Next == \E u \in Uris : \/ ChangeRange1(u) \/ ChangeRange2(u) \/ ChangeFull(u)
+Next == \E u \in Uris : \/ ChangeRange1(u) \/ ChangeRange2(u) \/ ChangeFull(u) \/ ChangeFullRange(u)
                         \/ Save(u) \/ Close(u) \/ Open(u)
 
 \* the exhaustive one-step configuration uses range changes only
@@ -236,6 +254,12 @@ SimFull(u) ==
        /\ hist' = Append(hist, [k |-> "full", u |-> u, t |-> nd, exp |-> nd])
     /\ UNCHANGED <<open, first>>
 
+SimFullRange(u) ==
+    \E cs0 \in {RandomElement(SeqsUpTo(Classes, MaxDoc))} :
+    \E a \in {RandomElement(0..Len(cs0))} : \E b \in {RandomElement(0..Len(cs0))} :
+    \E cs \in {RandomElement(SeqsUpTo(Classes, 1))} :
+       ChangeFullRangeP(u, cs0, Lo(a, b), Hi(a, b), cs)
+
 SimOpen(u) ==
     /\ More /\ ~open[u]
     /\ \E cs \in {RandomElement(SeqsUpTo(Classes, MaxDoc))} :
@@ -246,10 +270,10 @@ SimOpen(u) ==
        /\ hist' = Append(hist, [k |-> "open", u |-> u, t |-> nd, exp |-> nd])
        /\ UNCHANGED first
 
-NextSim == \E u \in Uris : \/ SimChange1(u) \/ SimChange2(u) \/ SimFull(u)
+NextSim == \E u \in Uris : \/ SimChange1(u) \/ SimChange2(u) \/ SimFull(u) \/ SimFullRange(u)
                            \/ Save(u) \/ Close(u) \/ SimOpen(u)
 
-NextBatch2 == \E u \in Uris : ChangeRange2(u)
+NextBatch2 == \E u \in Uris : ChangeRange2(u) \/ ChangeFullRange(u)
 
 Spec == Init /\ [][Next]_vars
 
